@@ -1,6 +1,7 @@
 (* Update.v — logical model of the commands that write to an existing archive path
    (cli/src/command/append.rs, update.rs, delete.rs, commons.rs run_transform_entry),
-   as repaired by the fix: commits ff5cb171, d6f70cbe, 82c7cf0b, a048f63a (update) and db651618 (append).
+   as repaired by the fix: commits ff5cb171, d6f70cbe, 82c7cf0b, a048f63a (update), db651618 (append) and
+   4cfc8ff5 (collect_items keeps one path per entry name).
 
    Part 1 (C11): an archive's logical content is the ordered list of its entries
    (solid blocks and part boundaries flattened: they do not change the order in which
@@ -35,10 +36,22 @@ Definition node_name (n : node) : bytes := sanitize_name (n_path n).   (* EntryN
 Fixpoint mem (x : bytes) (l : list bytes) : bool :=
   match l with [] => false | y :: r => bytes_eqb x y || mem x r end.
 
-(* collect_items: a missing root makes the walker fail; otherwise keep_dir || path.is_file() *)
+(* collect_items: a missing root makes the walker fail; otherwise keep_dir || path.is_file(), and of the
+   paths that pass the first of every entry name (commit 4cfc8ff5: overlapping file arguments (-r d d/a, ./d/a d/a)
+   reach a path more than once; `if seen.insert(EntryName::from_lossy(&path)) { target_items.push(path) }`) *)
 Definition missing (n : node) : bool := N.eqb (n_kind n) 4.
 Definition wanted (keep_dir : bool) (n : node) : bool := keep_dir || N.eqb (n_kind n) 0.
+Fixpoint dedup_seen (seen : list bytes) (l : list node) : list node :=
+  match l with
+  | [] => []
+  | n :: r => if mem (node_name n) seen then dedup_seen seen r
+              else n :: dedup_seen (node_name n :: seen) r
+  end.
+Definition dedup_names (l : list node) : list node := dedup_seen [] l.
 Definition collect (keep_dir : bool) (walk : list node) : res (list node) :=
+  if existsb missing walk then Err OtherErr else Ok (dedup_names (filter (wanted keep_dir) walk)).
+(* collect_items as it was before 4cfc8ff5: every walked path that passes is an item *)
+Definition collect_orig (keep_dir : bool) (walk : list node) : res (list node) :=
   if existsb missing walk then Err OtherErr else Ok (filter (wanted keep_dir) walk).
 
 (* create_entry: symlink / file / directory, anything else is Unsupported *)
@@ -54,11 +67,20 @@ Definition build (keep_ts : bool) (ns : list node) : res (list entry) :=
 Definition create_cmd (keep_dir keep_ts : bool) (walk : list node) : res archive :=
   do items <- collect keep_dir walk; build keep_ts items.
 
+(* create as it was before 4cfc8ff5: a path walked twice is archived twice (C02_create_overlap_unrepaired_refuted) *)
+Definition create_cmd_orig (keep_dir keep_ts : bool) (walk : list node) : res archive :=
+  do items <- collect_orig keep_dir walk; build keep_ts items.
+
 (* append.rs: seek_to_end of the last part, then the new entries and a new end marker
    overwrite the old end marker *)
 Definition append (a : archive) (new : list entry) : archive := a ++ new.
 Definition append_cmd (keep_dir keep_ts : bool) (a : archive) (walk : list node) : res archive :=
   do items <- collect keep_dir walk;
+  do new <- build keep_ts items;
+  Ok (append a new).
+
+Definition append_cmd_orig (keep_dir keep_ts : bool) (a : archive) (walk : list node) : res archive :=
+  do items <- collect_orig keep_dir walk;
   do new <- build keep_ts items;
   Ok (append a new).
 
@@ -114,17 +136,10 @@ Fixpoint pass_flags (excl : list bytes) (cond : N) (a : archive) (targets : list
     end
   end.
 
-(* update.rs after collect_items (commit a048f63a): overlapping file arguments (-r d d/a, ./d/a d/a)
-   name an entry more than once; the first walked path of every entry name is kept
-   (let mut seen = HashSet::new(); target_items.retain(|p| seen.insert(EntryName::from_lossy(p)))) *)
-Fixpoint dedup_seen (seen : list bytes) (l : list node) : list node :=
-  match l with
-  | [] => []
-  | n :: r => if mem (node_name n) seen then dedup_seen seen r
-              else n :: dedup_seen (node_name n :: seen) r
-  end.
-Definition dedup_names (l : list node) : list node := dedup_seen [] l.
-(* the paths update works on: what the walker yields, filtered, one per entry name *)
+(* update.rs after collect_items (commit a048f63a): the first walked path of every entry name is kept
+   (let mut seen = HashSet::new(); target_items.retain(|p| seen.insert(EntryName::from_lossy(p)))); since 4cfc8ff5
+   collect_items has applied the same rule already and this second pass changes nothing (UpdateFacts.dedup_names_idem) *)
+(* the items of create / append and the paths update works on: what the walker yields, filtered, one per entry name *)
 Definition update_targets (keep_dir : bool) (walk : list node) : list node :=
   dedup_names (filter (wanted keep_dir) walk).
 
@@ -138,7 +153,7 @@ Definition update_cmd (keep_dir keep_ts : bool) (excl : list bytes) (cond : N)
    archived twice (kept for the record: C11_update_overlap_unrepaired_refuted) *)
 Definition update_cmd_orig (keep_dir keep_ts : bool) (excl : list bytes) (cond : N)
            (a : archive) (walk : list node) : res archive :=
-  do items <- collect keep_dir walk;
+  do items <- collect_orig keep_dir walk;
   let '(kept, jobs, rest) := update_pass excl cond a items [] in
   do new <- build keep_ts (jobs ++ rest);
   Ok (kept ++ new).
